@@ -133,8 +133,9 @@ Qed.
 
 Lemma inv_transform : forall t x, trans_ok t -> Inv x -> Inv (transform t x).
 Proof.
-  intros [a|l] x A H; cbn [transform trans_ok] in *; [now apply inv_transform_atom|].
-  apply inv_fold_atoms; [now apply Forall_filter | exact H].
+  intros [a|l|c] x A H; cbn [transform trans_ok] in *; [now apply inv_transform_atom| |].
+  - apply inv_fold_atoms; [now apply Forall_filter | exact H].
+  - rewrite chain_transform_atoms. now apply inv_fold_atoms.
 Qed.
 
 (** The text of a transformed source depends only on the text of the operand. *)
@@ -146,7 +147,10 @@ Lemma den_fold_atoms : forall l x y, den x = den y ->
 Proof. induction l as [|a l IH]; intros x y H; cbn [fold_left]; [exact H | apply IH, den_transform_atom, H]. Qed.
 
 Lemma den_transform : forall t x y, den x = den y -> den (transform t x) = den (transform t y).
-Proof. intros [a|l] x y H; cbn [transform]; [now apply den_transform_atom | now apply den_fold_atoms]. Qed.
+Proof.
+  intros [a|l|c] x y H; cbn [transform]; [now apply den_transform_atom | now apply den_fold_atoms|].
+  rewrite !chain_transform_atoms. now apply den_fold_atoms.
+Qed.
 
 Lemma den_build : forall tr x y, den x = den y -> den (build x tr) = den (build y tr).
 Proof. intros [t|] x y H; cbn [build]; [now apply den_transform | exact H]. Qed.
@@ -179,7 +183,8 @@ Qed.
 
 Lemma unwrap_transform : forall t x y, skel_eq (transform t x) y -> skel_eq x (unwrap (layers t) y).
 Proof.
-  intros [a|l] x y H; cbn [transform layers] in *; [eapply unwrap_atom; exact H | now apply unwrap_fold].
+  intros [a|l|c] x y H; cbn [transform layers] in *; [eapply unwrap_atom; exact H | now apply unwrap_fold|].
+  rewrite chain_transform_atoms in H. now apply unwrap_fold.
 Qed.
 
 Lemma inv_unwrap : forall n y, Inv y -> Inv (unwrap n y).
@@ -286,3 +291,12 @@ Proof.
   rewrite verdict_is_semantic; cbn [matcher_ok]; auto; [|now rewrite E].
   cbn [sem_m]. rewrite De. f_equal. f_equal. apply den_build. rewrite Dx. reflexivity.
 Qed.
+
+(** ** [identity] anywhere in a chain, at any nesting level, changes nothing *)
+Lemma chain_atoms_insert_identity : forall l1 l2,
+  chain_atoms (CSeq (l1 ++ CAtom TId :: l2)) = chain_atoms (CSeq (l1 ++ l2)).
+Proof. intros l1 l2. cbn [chain_atoms]. rewrite !flat_map_app. reflexivity. Qed.
+
+Lemma chain_transform_insert_identity : forall l1 l2 x,
+  chain_transform (CSeq (l1 ++ CAtom TId :: l2)) x = chain_transform (CSeq (l1 ++ l2)) x.
+Proof. intros. now rewrite !chain_transform_atoms, chain_atoms_insert_identity. Qed.
